@@ -17,7 +17,7 @@ RULE = ("update histories = sequences of (value, tag) candidates split into batc
         "non-trivial = at least two candidates of which two tie for the optimum or an improving candidate follows a tagged one")
 OPEN_GOALS: list = []
 TECHNIQUE = "translator tie: class Entry is regenerated into Gallina on every run and proved equal to the model; Coq proof by induction over update histories (case lemma per update step) of value/tag laws; model tied to Entry/Table by exhaustive short histories + random long ones evaluated with vm_compute"
-LEVEL_TEXT = ("Machine-checked for histories of any length: value = optimum of all candidates; tags under ALL = exactly the tags of optimal candidates (duplicate-free), "
+LEVEL_TEXT = ("Reading of the statement made explicit by theorems: a tag is a TRUTHY info (a candidate whose info is falsy is untagged: C16_untagged_candidate/_history); combine pairs retained tags, so under NONE it returns the infinite default (C16_combine_no_tags); a table cell ignores batches made only of infinite candidates. Class Entry itself is translated from the source on every run and proved equal to the model (C16_gen_entry_*). Machine-checked for histories of any length: value = optimum of all candidates; tags under ALL = exactly the tags of optimal candidates (duplicate-free), "
               "under ANY one tag of an optimal candidate iff one is tagged, under NONE none; batching irrelevant; combine = optimum/arg-opt over pairs of retained tags; "
               "a table cell reads as the entry fed the finite-bearing batches addressed to it, default when there are none. "
               "Model compared with the implementation on every history up to length 3 (quick) / 4 (thorough) over {0,1,2}x{none,a,b}, all batchings, 6 policies, "
